@@ -117,6 +117,7 @@ pub enum K {
     Life(crate::life::LifeK),
     Exec(crate::exec::ExecK),
     Stream(crate::exec::StreamK),
+    Trans(crate::transient::TransK),
     /// insertion failed before a kind-specific state made sense
     Failed,
 }
@@ -131,6 +132,7 @@ impl K {
             K::Life(_) => "lifecycle",
             K::Exec(_) => "executor",
             K::Stream(_) => "stream",
+            K::Trans(_) => "transient",
             K::Failed => "failed",
         }
     }
